@@ -71,6 +71,43 @@ theorem fail_atomic_scionpath {Meta FP : Type} (revMeta : Meta → Meta) (fpOf :
     rw [← h.1, fail_atomic_view s.dp dp' e' hr]
   · simp at h
 
+/-- **Atomicity of the statement sequences.**  `reverseViewImp` / `reverseModelImp` run the Rust statements of
+`StandardPathView::try_reverse` / `StandardPath::try_reverse` in source order with the receiver threaded through
+(an exit returns the receiver as written so far – *not* the input by construction); they compute the summaries
+(`reverseViewImp_eq`, `reverseModelImp_eq`), hence an `Err` hands back the receiver the call started from. -/
+theorem fail_atomic_imp (p p' : PathV) (m m' : PathM) (e : RevErr) :
+    (reverseViewImp.run p = (p', .error e) → p' = p) ∧ (reverseModelImp.run m = (m', .error e) → m' = m) :=
+  ⟨fun h => fail_atomic_view p p' e (by rw [← reverseViewImp_eq]; exact h),
+   fun h => fail_atomic_model m m' e (by rw [← reverseModelImp_eq]; exact h)⟩
+
+/-- the statement order before the repair, as a statement sequence: the segment lengths are written first -/
+def reverseViewPreFixImp : Imp PathV (Except RevErr Unit) (Except RevErr Unit) := do
+  let s ← Imp.get
+  if s.seg0 = 0 then Imp.exit (.error .noSegments) else do
+  Imp.write fun t => { t with seg0 := (reversedState s).seg0, seg1 := (reversedState s).seg1, seg2 := (reversedState s).seg2 }
+  if s.seg0 + s.seg1 + s.seg2 ≤ s.currHf then Imp.exit (.error .hopOob) else
+  if segCountNZ s.seg1 s.seg2 ≤ s.currInf then Imp.exit (.error .infoOob) else do
+  Imp.write fun _ => reversedState s
+  pure (.ok ())
+
+/-- …and the statement-sequence form is *not* atomic for that order: the write in front of the exits shows in the
+receiver that comes back with the `Err` -/
+theorem fail_atomic_prefix_imp_witness :
+    ∃ p p' e, reverseViewPreFixImp.run p = (p', .error e) ∧ p' ≠ p :=
+  ⟨⟨0, 63, 0, 1, 2, 0, [], []⟩, ⟨0, 63, 0, 2, 1, 0, [], []⟩, .hopOob, rfl, by decide⟩
+
+/-- **The order of effects is the one in the Rust source as it is now.**  The translator re-extracts, on every run,
+the source order of early exits, panic sites and receiver writes of `StandardPathView::try_reverse`,
+`StandardPath::try_reverse` and `ScionPath::try_reverse`; it equals the order mirrored by the statement sequences,
+and in it every exit precedes every write (a write moved in front of a `?` / `return Err` changes the generated
+list and breaks this theorem). -/
+theorem effects_tie :
+    reverseViewImp.effects = EFFECTS_VIEW_TRY_REVERSE ∧ reverseModelImp.effects = EFFECTS_MODEL_TRY_REVERSE ∧
+    scionPathTryReverse.effects = EFFECTS_SCIONPATH_TRY_REVERSE ∧
+    exitsBeforeWrites EFFECTS_VIEW_TRY_REVERSE = true ∧ exitsBeforeWrites EFFECTS_MODEL_TRY_REVERSE = true ∧
+    exitsBeforeWrites EFFECTS_SCIONPATH_TRY_REVERSE = true := by
+  decide
+
 /-! ## 2. Reversal is its own inverse and preserves the logical position -/
 
 theorem reverseView_ok (p p' : PathV) (h : reverseView p = (p', .ok ())) :
@@ -468,22 +505,92 @@ theorem fail_atomic_model (m m' : OneHopM) (e : RevErr) (h : reverseModel m = (m
   split at h <;> simp only [Prod.mk.injEq, reduceCtorEq, and_false] at h
   exact h.1.symm
 
+/-- **Atomicity of the statement sequences** (`OneHopPathView::try_reverse`, `OneHopPath::try_reverse` in the
+order of the Rust statements, the receiver threaded through): an `Err` hands back the receiver it started from. -/
+theorem fail_atomic_imp (v v' : OneHopV) (m m' : OneHopM) (e : RevErr) :
+    (reverseViewImp.run v = (v', .error e) → v' = v) ∧ (reverseModelImp.run m = (m', .error e) → m' = m) :=
+  ⟨fun h => fail_atomic_view v v' e (by rw [← reverseViewImp_eq]; exact h),
+   fun h => fail_atomic_model m m' e (by rw [← reverseModelImp_eq]; exact h)⟩
+
+/-- the order of exits and writes mirrored by the two statement sequences is the order in the Rust source as it is
+now (re-extracted by the translator on every run), and there every exit precedes every write -/
+theorem effects_tie :
+    reverseViewImp.effects = EFFECTS_ONEHOP_VIEW_TRY_REVERSE ∧ reverseModelImp.effects = EFFECTS_ONEHOP_MODEL_TRY_REVERSE ∧
+    exitsBeforeWrites EFFECTS_ONEHOP_VIEW_TRY_REVERSE = true ∧ exitsBeforeWrites EFFECTS_ONEHOP_MODEL_TRY_REVERSE = true := by
+  decide
+
 /-- view and model reverse alike: same verdict, `encode (reverse m) = reverse (encode m)` -/
 theorem reverse_agree (m : OneHopM) :
     (reverseView m.encode).2 = (reverseModel m).2 ∧ (reverseView m.encode).1 = (reverseModel m).1.encode := by
   unfold reverseView reverseModel OneHopM.encode
-  by_cases h : m.hop2.consIn = 0 <;> simp [h, InfoM.toV, InfoF.toggle, InfoM.toggle]
+  by_cases h : secondHopUnset m.info.flags m.hop1 m.hop2 = true <;> simp [h, InfoM.toV, InfoF.toggle, InfoM.toggle]
 
-/-- a reversed one-hop path that can be reversed again comes back unchanged -/
-theorem reverse_involutive (v v' : OneHopV) (h : reverseView v = (v', .ok ())) (h1 : v.hop1.consIn ≠ 0) :
-    reverseView v' = (v, .ok ()) := by
+theorem consDir_eq_testBit (f : Nat) : consDir f = f.testBit 0 := by
+  unfold consDir
+  rw [show INFO_FLAG_CONS_DIR = 2 ^ 0 from by decide, Nat.testBit_eq_decide_div_mod_eq]
+  cases h : decide (f / 2 ^ 0 % 2 = 1) <;> simp_all
+
+theorem consDir_toggle (f : Nat) : consDir (toggleCons f) = !consDir f := by
+  rw [consDir_eq_testBit, consDir_eq_testBit]
+  unfold toggleCons
+  rw [show INFO_FLAG_CONS_DIR = 2 ^ 0 from by decide, Nat.testBit_xor, Nat.testBit_two_pow_self]
+  simp
+
+/-- **Reversal is its own inverse** for every one-hop path that can be reversed (since `/repo` 9957320; before, a
+path built by `OneHopPath::new` + `set_second_hop` – first hop field without construction ingress – reversed once
+and then refused: `reverse_involutive_prefix_witness`). -/
+theorem reverse_involutive (v v' : OneHopV) (h : reverseView v = (v', .ok ())) : reverseView v' = (v, .ok ()) := by
   unfold reverseView at h
   split at h
   · simp at h
-  · simp only [Prod.mk.injEq, and_true] at h
+  · rename_i hu
+    simp only [Prod.mk.injEq, and_true] at h
     subst h
     unfold reverseView
-    simp [h1, InfoF.toggle_toggle]
+    have : secondHopUnset v.info.toggle.flags v.hop2 v.hop1 = secondHopUnset v.info.flags v.hop1 v.hop2 := by
+      unfold secondHopUnset InfoF.toggle
+      simp only [consDir_toggle]
+      cases consDir v.info.flags <;> simp
+    simp only [this, hu, Bool.false_eq_true, if_false, InfoF.toggle_toggle]
+
+/-- the same on the owned model -/
+theorem reverse_involutive_model (m m' : OneHopM) (h : reverseModel m = (m', .ok ())) : reverseModel m' = (m, .ok ()) := by
+  unfold reverseModel at h
+  split at h
+  · simp at h
+  · rename_i hu
+    simp only [Prod.mk.injEq, and_true] at h
+    subst h
+    unfold reverseModel
+    have : secondHopUnset m.info.toggle.flags m.hop2 m.hop1 = secondHopUnset m.info.flags m.hop1 m.hop2 := by
+      unfold secondHopUnset InfoM.toggle
+      simp only [consDir_toggle]
+      cases consDir m.info.flags <;> simp
+    have tt : m.info.toggle.toggle = m.info := by
+      unfold InfoM.toggle; simp [toggleCons, Nat.xor_assoc]
+    simp only [this, hu, Bool.false_eq_true, if_false, tt]
+
+/-- the repaired defect: with the direction-blind check a path as built by `OneHopPath::new` + `set_second_hop`
+reverses once and then refuses (replayed on the real code by `corpus/C12/060-onehop-reverse-twice.case`) -/
+theorem reverse_involutive_prefix_witness :
+    ∃ v v', reverseViewPreFix v = (v', .ok ()) ∧ (reverseViewPreFix v').2 = .error .secondHopNotSet ∧
+      reverseView v = (v', .ok ()) ∧ reverseView v' = (v, .ok ()) := by
+  refine ⟨⟨⟨1, 0, 0xaaaa, 7⟩, ⟨0, 255, 0, 1, 0x111111111111⟩, ⟨0, 0, 2, 0, 0x222222222222⟩⟩, _, rfl, rfl, rfl, rfl⟩
+
+/-- `DpPath::try_reverse` of a one-hop *model* (`try_into_reversed_standard_path`) succeeds exactly when the one-hop
+reversal does and carries the same info field and the same two hop fields in the same order – as a two-hop
+standard path with both pointers 0, whereas view and one-hop model stay one-hop paths
+(open finding `C12:agree:dppath-reverse:onehop-becomes-standard`). -/
+theorem dppath_reverse_content (m : OneHopM) :
+    (∀ e, toReversedStandard m = .error e ↔ (reverseModel m).2 = .error e) ∧
+    (∀ sp, toReversedStandard m = .ok sp →
+      sp = { currInf := 0, currHf := 0, segs := [{ info := (reverseModel m).1.info, hops := [(reverseModel m).1.hop1, (reverseModel m).1.hop2] }] }) := by
+  unfold toReversedStandard reverseModel
+  by_cases h : secondHopUnset m.info.flags m.hop1 m.hop2 = true
+  · simp only [h, if_true]
+    refine ⟨fun e => by cases e; simp, fun sp hsp => by cases hsp⟩
+  · simp only [h, Bool.false_eq_true, if_false]
+    refine ⟨fun e => by simp, fun sp hsp => by cases hsp; rfl⟩
 
 /-- `set_second_hop` builds the same second hop field on view and model, for every MAC function -/
 theorem set_second_hop_agree {K : Type} (mac : ScionVerif.Mac.MacFn K) (m : OneHopM) (ingress : Nat) (key : K) (adv : Bool) :
